@@ -191,6 +191,17 @@ func mutateMemo(template, path, mut string) (string, bool) {
 			}
 			cur.keys = append(cur.keys, cur.keys[idx])
 			cur.vals = append(cur.vals, &jnode{kind: "lit", lit: "null"})
+		case "unknown3":
+			// THREE unknown fields in the object at this path (which one a decoder names in its error
+			// must not reach anything that is committed)
+			node := cur.vals[idx]
+			if node.kind != "obj" {
+				return template, false
+			}
+			for _, k := range []string{"zq1", "zq2", "zq3"} {
+				node.keys = append(node.keys, k)
+				node.vals = append(node.vals, &jnode{kind: "lit", lit: "1"})
+			}
 		case "rename":
 			if cur.kind != "obj" {
 				return template, false
